@@ -1,12 +1,19 @@
 import ZV.Model.C24
 import ZV.Proofs.C24
+import ZV.Proofs.C24Sort
 /-!
   C24 — TLS endpoints negotiate correctly (version, suite, ALPN, downgrade sentinel).
 
   The tables (`Gen.*`) are regenerated from tls/common.go and tls/cipher_suites.go on every run, so the
   `decide` theorems below are re-checked against the code's current rows; the others hold for every
-  configuration.  The liveness half ("a handshake is possible iff the model says so") is what the
-  correspondence stream `c24 neg` establishes with real handshakes; it is not a theorem.
+  configuration AND every content of the tables.
+
+  The assembled function `negotiate` is covered completely: `negotiate_done_iff` / `negotiate_fail_iff` /
+  `negotiate_unmodelled_iff` characterise its three results; `negotiate_version`, `negotiate_suite_sound`,
+  `negotiate_suite_preference`, `negotiate_alpn_sound`, `negotiate_canary` are the clauses of the property for a
+  completed handshake; `negotiate_completes_12` / `negotiate_completes_13` are the liveness clause on the model.
+  That a REAL handshake completes exactly when (and with what) `negotiate` says is what the correspondence stream
+  `c24 neg` establishes with real handshakes; that tie is not a theorem.
 -/
 namespace ZV.C24
 open Gen
@@ -139,6 +146,93 @@ theorem deprio_perm (l r : List Nat) (h : deprio l = some r) : r.Perm l := by
     exact (List.reverse_perm _).trans (this.trans (List.reverse_perm _))
   · simp at h
 
+/-! ### deprioritizeAES: what the insertion sort does to the order -/
+/-- no id is in both tables behind the comparator (so `less` is a strict partial order); re-checked against the
+    code's current `aesgcmCiphers` / `nonAESGCMAEADCiphers` maps -/
+theorem aead_tables_disjoint : ∀ id ∈ nonAESGCMAEADCiphers, isAESGCM id = false := by decide
+
+theorem nonAEAD_not_aesgcm (x : Nat) (h : nonAESGCMAEAD x = true) : isAESGCM x = false :=
+  aead_tables_disjoint x (by simpa [nonAESGCMAEAD] using h)
+
+/-- the comparator handed to sort.SliceStable, in words: `a` is a non-AES-GCM AEAD id and `b` an AES-GCM id -/
+theorem less_iff (a b : Nat) : less a b = true ↔ a ∈ nonAESGCMAEADCiphers ∧ b ∈ aesgcmCiphers := by
+  simp [less, nonAESGCMAEAD, isAESGCM]
+
+/-- it is irreflexive, asymmetric and has no chains of length 2 (transitivity holds vacuously); incomparability is
+    NOT transitive, which is why the result below is stated pairwise and not as "sorted" -/
+theorem less_strict_partial_order :
+    (∀ a, less a a = false) ∧ (∀ a b, less a b = true → less b a = false) ∧
+    (∀ a b c, less a b = true → less b c = true → False) := by
+  refine ⟨fun a => ?_, fun a b h => less_flip_false nonAEAD_not_aesgcm h, fun a b c h1 h2 => ?_⟩
+  · cases h : nonAESGCMAEAD a with
+    | false => simp [less, h]
+    | true => simp [less, h, nonAEAD_not_aesgcm a h]
+  · simp only [less, Bool.and_eq_true] at h1 h2
+    have := nonAEAD_not_aesgcm b h2.1
+    rw [h1.2] at this
+    exact absurd this (by simp)
+
+/-- inside the model exactly up to 20 ids (the lengths for which sort.SliceStable is one insertion sort) -/
+theorem deprio_some_iff (l : List Nat) : (deprio l).isSome = true ↔ l.length ≤ 20 := by
+  unfold deprio; split <;> simp [*]
+
+theorem deprio_length (l r : List Nat) (h : deprio l = some r) : l.length ≤ 20 ∧ r.length = l.length :=
+  ⟨(deprio_some_iff l).mp (by simp [h]), (deprio_perm l r h).length_eq⟩
+
+theorem deprio_eq (l r : List Nat) (h : deprio l = some r) : r = (insertionSortRev [] l).reverse := by
+  unfold deprio at h
+  split at h
+  · simpa using h.symm
+  · simp at h
+
+/-- **stability**: two ids whose later one is not `less` than the earlier one keep their order — in particular equal
+    keys (any two ids of the same class, duplicates included) are never swapped.  `[a, b] <+ l` = some occurrence of `a`
+    stands before some occurrence of `b` -/
+theorem deprio_stable (l r : List Nat) (h : deprio l = some r) (a b : Nat)
+    (hab : [a, b].Sublist l) (hn : less b a = false) : [a, b].Sublist r := by
+  rw [deprio_eq l r h]
+  have := (insertionSortRev_stable a b [] l).2.2 hab hn
+  simpa using List.reverse_sublist.mpr this
+
+/-- **the only thing it moves**: if `a` stands before `b` in the result but did not in the input, then `a` is a
+    non-AES-GCM AEAD id and `b` an AES-GCM id -/
+theorem deprio_moves_only_less (l r : List Nat) (h : deprio l = some r) (a b : Nat)
+    (hab : [a, b].Sublist r) : [a, b].Sublist l ∨ less a b = true := by
+  rw [deprio_eq l r h] at hab
+  have h' : [b, a].Sublist (insertionSortRev [] l) := by
+    have := List.reverse_sublist.mpr hab
+    simpa using this
+  rcases insertionSortRev_pairs a b [] l h' with h1 | ⟨h2, _⟩ | h3 | h4
+  · have := h1.length_le; simp at this
+  · simp at h2
+  · exact Or.inl h3
+  · exact Or.inr h4
+
+/-- the result has no adjacent pair in the wrong order (an AES-GCM id immediately followed by a non-AES-GCM AEAD id);
+    for NON-adjacent pairs this can fail (see the example below: the comparator is not a weak order), exactly as the
+    Go comment says ("rearranging ADJACENT AEAD ciphers") -/
+theorem deprio_no_adjacent_inversion (l r : List Nat) (h : deprio l = some r) (pre post : List Nat) (p q : Nat)
+    (hr : r = pre ++ p :: q :: post) : less q p = false := by
+  have hadj := insertionSortRev_adj nonAEAD_not_aesgcm [] l trivial
+  have he : insertionSortRev [] l = post.reverse ++ q :: p :: pre.reverse := by
+    have := congrArg List.reverse ((deprio_eq l r h).symm.trans hr)
+    simpa using this
+  rw [he] at hadj
+  exact AdjRev_at _ _ _ _ hadj
+
+/-- a list without such an adjacent pair is left alone -/
+theorem deprio_fixed (l : List Nat) (hlen : l.length ≤ 20)
+    (h : ∀ pre p q post, l = pre ++ p :: q :: post → less q p = false) : deprio l = some l := by
+  unfold deprio
+  simp only [hlen, if_true]
+  rw [insertionSortRev_fixed l [] (by simp) h]
+  simp
+
+/-- `deprioritizeAES` is idempotent -/
+theorem deprio_idem (l r : List Nat) (h : deprio l = some r) : deprio r = some r := by
+  obtain ⟨h1, h2⟩ := deprio_length l r h
+  exact deprio_fixed r (by omega) (fun pre p q post he => deprio_no_adjacent_inversion l r h pre post p q he)
+
 /-! ### ALPN -/
 theorem alpn_rule (protos pref : List Nat) (p : Nat) (h : mutualProtocol protos pref = some p) :
     p ∈ protos ∧ ∃ pre post, pref = pre ++ p :: post ∧ ∀ x ∈ pre, x ∉ protos := by
@@ -191,6 +285,698 @@ theorem negotiate_version (c : Client) (s : Server) (o : Outcome) (h : negotiate
         repeat' split at h
         all_goals first | (simp at h; done) | (simp only [Result.done.injEq] at h; rw [← h])
       rw [this]; exact hmax
+
+/-! ### effective preference lists -/
+
+/-- the pair (preference list, other side's list) that `pickCipherSuite` hands to `selectCipherSuite` -/
+def prefLists12 (offer : List Nat) (srvSuites : Option (List Nat)) (prefer : Bool) : Option (List Nat × List Nat) :=
+  let srv := srvSuites.getD defaultCipherSuites
+  if prefer then
+    if srvSuites.isNone && !aesgcmPreferred offer then (deprio srv).map (fun p => (p, offer))
+    else some (srv, offer)
+  else
+    if !hasAESGCMHardwareSupport then (deprio offer).map (fun p => (p, srv))
+    else some (offer, srv)
+
+/-- the same pair in the TLS 1.3 server (`mutualCipherSuiteTLS13`) -/
+def prefLists13 (offer : List Nat) (prefer : Bool) : Option (List Nat × List Nat) :=
+  if prefer then
+    if !aesgcmPreferred offer then (deprio defaultCipherSuitesTLS13).map (fun p => (p, offer))
+    else some (defaultCipherSuitesTLS13, offer)
+  else
+    if !hasAESGCMHardwareSupport then (deprio offer).map (fun p => (p, defaultCipherSuitesTLS13))
+    else some (offer, defaultCipherSuitesTLS13)
+
+/-- `pickCipherSuite` is `selectCipherSuite` over that pair (definitional: re-checked whenever the model changes) -/
+theorem pickCipherSuite_eq (offer : List Nat) (ss : Option (List Nat)) (prefer : Bool) (f : Facts) :
+    pickCipherSuite offer ss prefer f =
+      match prefLists12 offer ss prefer with
+      | none => .unmodelled
+      | some (pref, sup) =>
+        match selectCipherSuite pref sup (cipherSuiteOk f) with
+        | some r => .suite r
+        | none => .noSuite := rfl
+
+theorem pickTLS13_eq (offer : List Nat) (prefer : Bool) :
+    pickTLS13 offer prefer =
+      match prefLists13 offer prefer with
+      | none => none
+      | some (pref, sup) => some (pref.find? (fun id => sup.contains id && isTLS13Suite id)) := rfl
+
+/-- which lists these are: the preference list is the server's list (`PreferServerCipherSuites`) or the client's
+    offer, as configured or after `deprioritizeAES`; the other list is the other side's, untouched -/
+theorem prefLists12_cases (offer : List Nat) (ss : Option (List Nat)) (prefer : Bool) (pref sup : List Nat)
+    (h : prefLists12 offer ss prefer = some (pref, sup)) :
+    (prefer = true ∧ sup = offer ∧
+      (pref = ss.getD defaultCipherSuites ∨
+       (ss = none ∧ aesgcmPreferred offer = false ∧ deprio defaultCipherSuites = some pref))) ∨
+    (prefer = false ∧ sup = ss.getD defaultCipherSuites ∧
+      (pref = offer ∨ (hasAESGCMHardwareSupport = false ∧ deprio offer = some pref))) := by
+  unfold prefLists12 at h
+  simp only at h
+  cases prefer with
+  | true =>
+    simp only [if_true] at h
+    split at h
+    · rename_i hc
+      simp only [Bool.and_eq_true, Option.isNone_iff_eq_none, Bool.not_eq_true'] at hc
+      cases hd : deprio (ss.getD defaultCipherSuites) with
+      | none => simp [hd] at h
+      | some p =>
+        simp only [hd, Option.map_some, Option.some.injEq, Prod.mk.injEq] at h
+        refine Or.inl ⟨rfl, h.2.symm, Or.inr ⟨hc.1, hc.2, ?_⟩⟩
+        rw [hc.1] at hd
+        rw [← h.1]; exact hd
+    · simp only [Option.some.injEq, Prod.mk.injEq] at h
+      exact Or.inl ⟨rfl, h.2.symm, Or.inl h.1.symm⟩
+  | false =>
+    simp only [Bool.false_eq_true, if_false] at h
+    split at h
+    · rename_i hc
+      cases hd : deprio offer with
+      | none => simp [hd] at h
+      | some p =>
+        simp only [hd, Option.map_some, Option.some.injEq, Prod.mk.injEq] at h
+        refine Or.inr ⟨rfl, h.2.symm, Or.inr ⟨by simpa using hc, ?_⟩⟩
+        rw [← h.1]
+    · simp only [Option.some.injEq, Prod.mk.injEq] at h
+      exact Or.inr ⟨rfl, h.2.symm, Or.inl h.1.symm⟩
+
+theorem prefLists13_cases (offer : List Nat) (prefer : Bool) (pref sup : List Nat)
+    (h : prefLists13 offer prefer = some (pref, sup)) :
+    (prefer = true ∧ sup = offer ∧
+      (pref = defaultCipherSuitesTLS13 ∨
+       (aesgcmPreferred offer = false ∧ deprio defaultCipherSuitesTLS13 = some pref))) ∨
+    (prefer = false ∧ sup = defaultCipherSuitesTLS13 ∧
+      (pref = offer ∨ (hasAESGCMHardwareSupport = false ∧ deprio offer = some pref))) := by
+  unfold prefLists13 at h
+  cases prefer with
+  | true =>
+    simp only [if_true] at h
+    split at h
+    · rename_i hc
+      cases hd : deprio defaultCipherSuitesTLS13 with
+      | none => simp [hd] at h
+      | some p =>
+        simp only [hd, Option.map_some, Option.some.injEq, Prod.mk.injEq] at h
+        refine Or.inl ⟨rfl, h.2.symm, Or.inr ⟨by simpa using hc, ?_⟩⟩
+        rw [← h.1]
+    · simp only [Option.some.injEq, Prod.mk.injEq] at h
+      exact Or.inl ⟨rfl, h.2.symm, Or.inl h.1.symm⟩
+  | false =>
+    simp only [Bool.false_eq_true, if_false] at h
+    split at h
+    · rename_i hc
+      cases hd : deprio offer with
+      | none => simp [hd] at h
+      | some p =>
+        simp only [hd, Option.map_some, Option.some.injEq, Prod.mk.injEq] at h
+        refine Or.inr ⟨rfl, h.2.symm, Or.inr ⟨by simpa using hc, ?_⟩⟩
+        rw [← h.1]
+    · simp only [Option.some.injEq, Prod.mk.injEq] at h
+      exact Or.inr ⟨rfl, h.2.symm, Or.inl h.1.symm⟩
+
+/-- in every case: a reordering of one side's list, and the other side's list -/
+theorem prefLists12_perm (offer : List Nat) (ss : Option (List Nat)) (prefer : Bool) (pref sup : List Nat)
+    (h : prefLists12 offer ss prefer = some (pref, sup)) :
+    pref.Perm (if prefer then ss.getD defaultCipherSuites else offer) ∧
+    sup = (if prefer then offer else ss.getD defaultCipherSuites) := by
+  rcases prefLists12_cases _ _ _ _ _ h with ⟨hp, hs, hc⟩ | ⟨hp, hs, hc⟩
+  · subst hp
+    refine ⟨?_, by simpa using hs⟩
+    rcases hc with rfl | ⟨hss, _, hd⟩
+    · simp
+    · subst hss; simpa using deprio_perm _ _ hd
+  · subst hp
+    refine ⟨?_, by simpa using hs⟩
+    rcases hc with rfl | ⟨_, hd⟩
+    · simp
+    · simpa using deprio_perm _ _ hd
+
+theorem prefLists13_perm (offer : List Nat) (prefer : Bool) (pref sup : List Nat)
+    (h : prefLists13 offer prefer = some (pref, sup)) :
+    pref.Perm (if prefer then defaultCipherSuitesTLS13 else offer) ∧
+    sup = (if prefer then offer else defaultCipherSuitesTLS13) := by
+  rcases prefLists13_cases _ _ _ _ h with ⟨hp, hs, hc⟩ | ⟨hp, hs, hc⟩
+  · subst hp
+    refine ⟨?_, by simpa using hs⟩
+    rcases hc with rfl | ⟨_, hd⟩
+    · simp
+    · simpa using deprio_perm _ _ hd
+  · subst hp
+    refine ⟨?_, by simpa using hs⟩
+    rcases hc with rfl | ⟨_, hd⟩
+    · simp
+    · simpa using deprio_perm _ _ hd
+
+/-- the lists are outside the model exactly when `deprioritizeAES` is applied to more than 20 ids -/
+theorem prefLists12_none_iff (offer : List Nat) (ss : Option (List Nat)) (prefer : Bool) :
+    prefLists12 offer ss prefer = none ↔
+      (if prefer then ss = none ∧ aesgcmPreferred offer = false ∧ defaultCipherSuites.length > 20
+       else hasAESGCMHardwareSupport = false ∧ offer.length > 20) := by
+  unfold prefLists12 deprio
+  cases prefer <;> cases ss <;> simp <;> split <;> simp_all <;> omega
+
+theorem prefLists13_none_iff (offer : List Nat) (prefer : Bool) :
+    prefLists13 offer prefer = none ↔
+      (if prefer then aesgcmPreferred offer = false ∧ defaultCipherSuitesTLS13.length > 20
+       else hasAESGCMHardwareSupport = false ∧ offer.length > 20) := by
+  unfold prefLists13 deprio
+  cases prefer <;> simp <;> split <;> simp_all <;> omega
+
+/-- **a suite picked by the TLS ≤ 1.2 server is enabled on both sides and usable** -/
+theorem pick_suite_sound (offer : List Nat) (ss : Option (List Nat)) (prefer : Bool) (f : Facts) (r : SuiteRow)
+    (h : pickCipherSuite offer ss prefer f = .suite r) :
+    r.id ∈ offer ∧ r.id ∈ ss.getD defaultCipherSuites ∧ lookup implemented r.id = some r ∧ cipherSuiteOk f r = true := by
+  rw [pickCipherSuite_eq] at h
+  split at h
+  · simp at h
+  · rename_i pref sup hl
+    split at h
+    · rename_i r' hsel
+      simp only [Pick.suite.injEq] at h
+      subst h
+      obtain ⟨pre, post, he, h1, h2, h3, _⟩ := select_first_qualifying _ _ _ _ hsel
+      obtain ⟨hperm, hsup⟩ := prefLists12_perm _ _ _ _ _ hl
+      have hin : r'.id ∈ pref := by rw [he]; simp
+      have hin' := hperm.mem_iff.mp hin
+      have h3' : r'.id ∈ sup := by simpa using h3
+      rw [hsup] at h3'
+      cases prefer with
+      | true => exact ⟨by simpa using h3', by simpa using hin', h1, h2⟩
+      | false => exact ⟨by simpa using hin', by simpa using h3', h1, h2⟩
+    · simp at h
+
+/-- **… and it is the FIRST qualifying id of the effective preference list** -/
+theorem pick_suite_first (offer : List Nat) (ss : Option (List Nat)) (prefer : Bool) (f : Facts) (r : SuiteRow)
+    (h : pickCipherSuite offer ss prefer f = .suite r) :
+    ∃ pref sup pre post, prefLists12 offer ss prefer = some (pref, sup) ∧ pref = pre ++ r.id :: post ∧
+      ∀ x ∈ pre, ∀ rx, lookup implemented x = some rx → (cipherSuiteOk f rx && sup.contains x) = false := by
+  rw [pickCipherSuite_eq] at h
+  split at h
+  · simp at h
+  · rename_i pref sup hl
+    split at h
+    · rename_i r' hsel
+      simp only [Pick.suite.injEq] at h
+      subst h
+      obtain ⟨pre, post, he, _, _, _, h4⟩ := select_first_qualifying _ _ _ _ hsel
+      exact ⟨pref, sup, pre, post, hl, he, h4⟩
+    · simp at h
+
+/-- **no suite** exactly when (the lists are inside the model and) no id enabled on both sides is implemented and
+    passes the server's usability filter — independent of all ordering -/
+theorem pick_noSuite_iff (offer : List Nat) (ss : Option (List Nat)) (prefer : Bool) (f : Facts) :
+    pickCipherSuite offer ss prefer f = .noSuite ↔
+      prefLists12 offer ss prefer ≠ none ∧
+      ∀ x ∈ offer, x ∈ ss.getD defaultCipherSuites → ∀ rx, lookup implemented x = some rx → cipherSuiteOk f rx = false := by
+  rw [pickCipherSuite_eq]
+  split
+  · rename_i hl; simp [hl]
+  · rename_i pref sup hl
+    obtain ⟨hperm, hsup⟩ := prefLists12_perm _ _ _ _ _ hl
+    have key : selectCipherSuite pref sup (cipherSuiteOk f) = none ↔
+        ∀ x ∈ offer, x ∈ ss.getD defaultCipherSuites → ∀ rx, lookup implemented x = some rx → cipherSuiteOk f rx = false := by
+      rw [select_none_iff]
+      subst hsup
+      cases prefer with
+      | true =>
+        simp only [if_true] at hperm ⊢
+        constructor
+        · intro hh x hx hs rx hrx
+          have := hh x (hperm.mem_iff.mpr hs) rx hrx
+          simpa [hx] using this
+        · intro hh x hx rx hrx
+          cases hc : offer.contains x with
+          | false => simp
+          | true => simp [hh x (by simpa using hc) (hperm.mem_iff.mp hx) rx hrx]
+      | false =>
+        simp only [Bool.false_eq_true, if_false] at hperm ⊢
+        constructor
+        · intro hh x hx hs rx hrx
+          have := hh x (hperm.mem_iff.mpr hx) rx hrx
+          simpa [hs] using this
+        · intro hh x hx rx hrx
+          cases hc : (ss.getD defaultCipherSuites).contains x with
+          | false => simp
+          | true => simp [hh x (hperm.mem_iff.mp hx) (by simpa using hc) rx hrx]
+    split
+    · rename_i r hsel
+      simp only [reduceCtorEq, false_iff, not_and]
+      intro _ hh
+      rw [← key, hsel] at hh
+      simp at hh
+    · rename_i hsel
+      simp only [true_iff]
+      exact ⟨by simp [hl], key.mp hsel⟩
+
+theorem pick_unmodelled_iff (offer : List Nat) (ss : Option (List Nat)) (prefer : Bool) (f : Facts) :
+    pickCipherSuite offer ss prefer f = .unmodelled ↔ prefLists12 offer ss prefer = none := by
+  rw [pickCipherSuite_eq]
+  split
+  · rename_i hl; simp [hl]
+  · rename_i hl; simp only [hl]; split <;> simp
+
+/-- **TLS 1.3**: the selected suite is offered by the client, is in the server's TLS 1.3 list and is a TLS 1.3 suite -/
+theorem pick13_sound (offer : List Nat) (prefer : Bool) (id : Nat) (h : pickTLS13 offer prefer = some (some id)) :
+    id ∈ offer ∧ id ∈ defaultCipherSuitesTLS13 ∧ isTLS13Suite id = true := by
+  rw [pickTLS13_eq] at h
+  split at h
+  · simp at h
+  · rename_i pref sup hl
+    simp only [Option.some.injEq] at h
+    obtain ⟨hperm, hsup⟩ := prefLists13_perm _ _ _ _ hl
+    have hin := hperm.mem_iff.mp (List.mem_of_find?_eq_some h)
+    have hp := List.find?_some h
+    simp only [Bool.and_eq_true, List.contains_iff_mem] at hp
+    rw [hsup] at hp
+    cases prefer with
+    | true => exact ⟨by simpa using hp.1, by simpa using hin, hp.2⟩
+    | false => exact ⟨by simpa using hin, by simpa using hp.1, hp.2⟩
+
+/-- … and it is the first such id of the effective preference list -/
+theorem pick13_first (offer : List Nat) (prefer : Bool) (id : Nat) (h : pickTLS13 offer prefer = some (some id)) :
+    ∃ pref sup pre post, prefLists13 offer prefer = some (pref, sup) ∧ pref = pre ++ id :: post ∧
+      ∀ x ∈ pre, (sup.contains x && isTLS13Suite x) = false := by
+  rw [pickTLS13_eq] at h
+  split at h
+  · simp at h
+  · rename_i pref sup hl
+    simp only [Option.some.injEq] at h
+    obtain ⟨pre, post, he, _, hpre⟩ := find?_first h
+    exact ⟨pref, sup, pre, post, hl, he, hpre⟩
+
+/-- no TLS 1.3 suite exactly when none is shared (independent of all ordering) -/
+theorem pick13_none_iff (offer : List Nat) (prefer : Bool) :
+    pickTLS13 offer prefer = some none ↔
+      prefLists13 offer prefer ≠ none ∧ ∀ x ∈ offer, x ∈ defaultCipherSuitesTLS13 → isTLS13Suite x = false := by
+  rw [pickTLS13_eq]
+  split
+  · rename_i hl; simp [hl]
+  · rename_i pref sup hl
+    obtain ⟨hperm, hsup⟩ := prefLists13_perm _ _ _ _ hl
+    subst hsup
+    simp only [Option.some.injEq, List.find?_eq_none, ne_eq, hl, reduceCtorEq, not_false_eq_true, true_and]
+    cases prefer with
+    | true =>
+      simp only [if_true] at hperm ⊢
+      constructor
+      · intro hh x hx hs
+        have := hh x (hperm.mem_iff.mpr hs)
+        simpa [hx] using this
+      · intro hh x hx
+        have := hh x
+        have hx' := hperm.mem_iff.mp hx
+        simp only [Bool.and_eq_true, List.contains_iff_mem, not_and, Bool.not_eq_true]
+        intro ho; exact hh x ho hx'
+    | false =>
+      simp only [Bool.false_eq_true, if_false] at hperm ⊢
+      constructor
+      · intro hh x hx hs
+        have := hh x (hperm.mem_iff.mpr hx)
+        simpa [hs] using this
+      · intro hh x hx
+        have hx' := hperm.mem_iff.mp hx
+        simp only [Bool.and_eq_true, List.contains_iff_mem, not_and, Bool.not_eq_true]
+        intro ho; exact hh x hx' ho
+
+/-! ### the assembled negotiation: suite, ALPN, sentinel, failure, liveness -/
+/-- the client's / server's version list, the ClientHello's suite list, and the other inputs of `negotiate` -/
+abbrev cvOf (c : Client) : List Nat := configVersions supportedVersions c.minV c.maxV
+abbrev svOf (s : Server) : List Nat := configVersions supportedVersions s.minV s.maxV
+abbrev offerOf (c : Client) : List Nat := clientOffer (cvOf c) c.suites c.force
+/-- TLS_FALLBACK_SCSV offered although the server supports more than the client's hello asked for -/
+abbrev scsvBad (c : Client) (s : Server) (v : Nat) : Bool :=
+  (offerOf c).contains fallbackSCSV &&
+    (if v == VersionTLS13 then v < maxSupported (svOf s) else min (maxSupported (cvOf c)) VersionTLS12 < maxSupported (svOf s))
+abbrev alpnOf (c : Client) (s : Server) : Option Nat := if c.alpn.isEmpty then none else mutualProtocol c.alpn s.alpn
+abbrev ecdheOkOf (c : Client) (s : Server) : Bool := (curvesOf c.curves).any (fun g => (curvesOf s.curves).contains g)
+abbrev factsOf (c : Client) (s : Server) (v : Nat) : Facts := facts v s.key (ecdheOkOf c s)
+/-- the sentinel the client sees in the last 8 bytes of the server random: the server's own rule, or a forged value -/
+abbrev sentinelOf (s : Server) (v : Nat) : Canary :=
+  match s.rand with
+  | .none => serverCanary (maxSupported (svOf s)) v
+  | x => x
+
+/-- `negotiate`, restated with the names above -/
+theorem negotiate_eq (c : Client) (s : Server) : negotiate c s =
+    if (cvOf c).isEmpty then .fail else
+    match mutualVersion (svOf s) (cvOf c) with
+    | none => .fail
+    | some v =>
+      if v == VersionTLS13 then
+        if scsvBad c s v then .fail else
+        match pickTLS13 (offerOf c) s.prefer with
+        | none => .unmodelled
+        | some none => .fail
+        | some (some id) =>
+          if (curvesOf s.curves).any (fun g => (curvesOf c.curves).contains g) then
+            .done { vers := v, suite := id, alpn := alpnOf c s, canary := .none }
+          else .fail
+      else
+        match pickCipherSuite (offerOf c) s.suites s.prefer (factsOf c s v) with
+        | .unmodelled => .unmodelled
+        | .noSuite => .fail
+        | .suite r =>
+          if scsvBad c s v then .fail else
+          if !exchangeWorks r s.key v then .fail else
+          if clientAborts (maxSupported (cvOf c)) v (sentinelOf s v) then .fail
+          else .done { vers := v, suite := r.id, alpn := alpnOf c s, canary := sentinelOf s v } := rfl
+
+/-- **when and with what a negotiation completes** — every field of the outcome, both protocol generations -/
+theorem negotiate_done_iff (c : Client) (s : Server) (o : Outcome) :
+    negotiate c s = .done o ↔
+      ∃ v, mutualVersion (svOf s) (cvOf c) = some v ∧ o.vers = v ∧ o.alpn = alpnOf c s ∧
+        (if v = VersionTLS13 then
+           scsvBad c s v = false ∧ pickTLS13 (offerOf c) s.prefer = some (some o.suite) ∧
+           (curvesOf s.curves).any (fun g => (curvesOf c.curves).contains g) = true ∧ o.canary = .none
+         else
+           ∃ r, pickCipherSuite (offerOf c) s.suites s.prefer (factsOf c s v) = .suite r ∧ scsvBad c s v = false ∧
+             exchangeWorks r s.key v = true ∧ clientAborts (maxSupported (cvOf c)) v (sentinelOf s v) = false ∧
+             o.suite = r.id ∧ o.canary = sentinelOf s v) := by
+  rw [negotiate_eq]
+  obtain ⟨ov, os, oa, oc⟩ := o
+  cases hv : mutualVersion (svOf s) (cvOf c) with
+  | none => simp
+  | some v =>
+    simp only [mutualVersion_nonempty hv, Bool.false_eq_true, if_false, Option.some.injEq, exists_eq_left']
+    generalize scsvBad c s v = sb
+    generalize alpnOf c s = al
+    generalize sentinelOf s v = sen
+    by_cases h13 : v = VersionTLS13
+    · subst h13
+      simp only [beq_self_eq_true, if_true]
+      generalize pickTLS13 (offerOf c) s.prefer = p13
+      generalize (curvesOf s.curves).any (fun g => (curvesOf c.curves).contains g) = cu
+      cases sb <;> cases cu <;> rcases p13 with _ | _ | id <;> simp <;> (constructor <;> (rintro ⟨rfl, rfl, rfl, rfl⟩; simp))
+    · have hb : (v == VersionTLS13) = false := by simpa using h13
+      simp only [hb, Bool.false_eq_true, if_false, h13]
+      generalize pickCipherSuite (offerOf c) s.suites s.prefer (factsOf c s v) = pk
+      cases pk with
+      | unmodelled => simp
+      | noSuite => simp
+      | suite r =>
+        simp only [Pick.suite.injEq, exists_eq_left']
+        generalize exchangeWorks r s.key v = ex
+        generalize clientAborts (maxSupported (cvOf c)) v sen = ab
+        cases sb <;> cases ex <;> cases ab <;> simp <;> (constructor <;> (rintro ⟨rfl, rfl, rfl, rfl⟩; simp))
+
+/-- **when a negotiation fails** (complete characterisation, both protocol generations):
+    no shared version; or
+    * TLS 1.3: TLS_FALLBACK_SCSV misuse ∨ no shared TLS 1.3 suite ∨ no shared group;
+    * TLS ≤ 1.2: no id enabled on both sides that is implemented and usable with the server's key/curves/version ∨
+      for the selected suite: SCSV misuse ∨ its key exchange cannot be carried out (DSS; Ed25519 below TLS 1.2) ∨ the
+      client's downgrade check fires (only possible with a forged ServerRandom: `negotiate_abort_only_forged`) -/
+theorem negotiate_fail_iff (c : Client) (s : Server) :
+    negotiate c s = .fail ↔
+      (∀ w, w ∈ cvOf c → w ∉ svOf s) ∨
+      ∃ v, mutualVersion (svOf s) (cvOf c) = some v ∧
+        (if v = VersionTLS13 then
+           scsvBad c s v = true ∨
+           (prefLists13 (offerOf c) s.prefer ≠ none ∧
+             ∀ x ∈ offerOf c, x ∈ defaultCipherSuitesTLS13 → isTLS13Suite x = false) ∨
+           ((∃ id, pickTLS13 (offerOf c) s.prefer = some (some id)) ∧
+             (curvesOf s.curves).any (fun g => (curvesOf c.curves).contains g) = false)
+         else
+           (prefLists12 (offerOf c) s.suites s.prefer ≠ none ∧
+             ∀ x ∈ offerOf c, x ∈ s.suites.getD defaultCipherSuites →
+               ∀ rx, lookup implemented x = some rx → cipherSuiteOk (factsOf c s v) rx = false) ∨
+           ∃ r, pickCipherSuite (offerOf c) s.suites s.prefer (factsOf c s v) = .suite r ∧
+             (scsvBad c s v = true ∨ exchangeWorks r s.key v = false ∨
+              clientAborts (maxSupported (cvOf c)) v (sentinelOf s v) = true)) := by
+  rw [negotiate_eq, ← version_none_iff, ← pick13_none_iff]
+  cases hv : mutualVersion (svOf s) (cvOf c) with
+  | none => simp
+  | some v =>
+    simp only [mutualVersion_nonempty hv, Bool.false_eq_true, if_false, Option.some.injEq, exists_eq_left',
+      reduceCtorEq, false_or, ← pick_noSuite_iff]
+    generalize scsvBad c s v = sb
+    generalize sentinelOf s v = sen
+    by_cases h13 : v = VersionTLS13
+    · subst h13
+      simp only [beq_self_eq_true, if_true]
+      generalize pickTLS13 (offerOf c) s.prefer = p13
+      generalize (curvesOf s.curves).any (fun g => (curvesOf c.curves).contains g) = cu
+      cases sb <;> cases cu <;> rcases p13 with _ | _ | id <;> simp
+    · have hb : (v == VersionTLS13) = false := by simpa using h13
+      simp only [hb, Bool.false_eq_true, if_false, h13]
+      generalize pickCipherSuite (offerOf c) s.suites s.prefer (factsOf c s v) = pk
+      cases pk with
+      | unmodelled => simp
+      | noSuite => simp
+      | suite r =>
+        simp only [Pick.suite.injEq, exists_eq_left', reduceCtorEq, false_or]
+        generalize exchangeWorks r s.key v = ex
+        generalize clientAborts (maxSupported (cvOf c)) v sen = ab
+        cases sb <;> cases ex <;> cases ab <;> simp
+
+/-- where the model itself gives up: exactly when `deprioritizeAES` would have to sort more than 20 ids -/
+theorem negotiate_unmodelled_iff (c : Client) (s : Server) :
+    negotiate c s = .unmodelled ↔
+      ∃ v, mutualVersion (svOf s) (cvOf c) = some v ∧
+        (if v = VersionTLS13 then scsvBad c s v = false ∧ prefLists13 (offerOf c) s.prefer = none
+         else prefLists12 (offerOf c) s.suites s.prefer = none) := by
+  rw [negotiate_eq]
+  cases hv : mutualVersion (svOf s) (cvOf c) with
+  | none => simp
+  | some v =>
+    simp only [mutualVersion_nonempty hv, Bool.false_eq_true, if_false, Option.some.injEq, exists_eq_left',
+      ← pick_unmodelled_iff _ _ _ (factsOf c s v)]
+    generalize scsvBad c s v = sb
+    generalize sentinelOf s v = sen
+    by_cases h13 : v = VersionTLS13
+    · subst h13
+      simp only [beq_self_eq_true, if_true, pickTLS13_eq]
+      generalize prefLists13 (offerOf c) s.prefer = pl
+      generalize (curvesOf s.curves).any (fun g => (curvesOf c.curves).contains g) = cu
+      rcases pl with _ | ⟨pref, sup⟩
+      · cases sb <;> simp
+      · simp only
+        generalize List.find? (fun id => sup.contains id && isTLS13Suite id) pref = fd
+        cases sb <;> cases cu <;> cases fd <;> simp
+    · have hb : (v == VersionTLS13) = false := by simpa using h13
+      simp only [hb, Bool.false_eq_true, if_false, h13]
+      generalize pickCipherSuite (offerOf c) s.suites s.prefer (factsOf c s v) = pk
+      cases pk with
+      | unmodelled => simp
+      | noSuite => simp
+      | suite r =>
+        simp only [reduceCtorEq, iff_false]
+        generalize exchangeWorks r s.key v = ex
+        generalize clientAborts (maxSupported (cvOf c)) v sen = ab
+        cases sb <;> cases ex <;> cases ab <;> simp
+
+/-- **(1) the negotiated suite is enabled on both sides and usable**: it is in the client's ClientHello list; for
+    TLS ≤ 1.2 it is in the server's configured-or-default list, implemented (`cipherSuiteByID` finds the row whose id
+    it is), passes `cipherSuiteOk` for the server's key, the shared curves and the negotiated version, and its key
+    exchange can be carried out; for TLS 1.3 it is in `defaultCipherSuitesTLS13` and a TLS 1.3 suite -/
+theorem negotiate_suite_sound (c : Client) (s : Server) (o : Outcome) (h : negotiate c s = .done o) :
+    o.suite ∈ offerOf c ∧
+    (if o.vers = VersionTLS13 then o.suite ∈ defaultCipherSuitesTLS13 ∧ isTLS13Suite o.suite = true
+     else o.suite ∈ s.suites.getD defaultCipherSuites ∧
+       ∃ r, lookup implemented o.suite = some r ∧ r.id = o.suite ∧ cipherSuiteOk (factsOf c s o.vers) r = true ∧
+         exchangeWorks r s.key o.vers = true) := by
+  obtain ⟨v, _, hvers, _, hrest⟩ := (negotiate_done_iff c s o).mp h
+  subst hvers
+  split at hrest
+  · rename_i h13
+    obtain ⟨_, hp, _, _⟩ := hrest
+    obtain ⟨h1, h2, h3⟩ := pick13_sound _ _ _ hp
+    simp only [h13, if_true]
+    exact ⟨h1, h2, h3⟩
+  · rename_i h13
+    obtain ⟨r, hp, _, hex, _, hid, _⟩ := hrest
+    obtain ⟨h1, h2, h3, h4⟩ := pick_suite_sound _ _ _ _ _ hp
+    simp only [h13, if_false]
+    rw [hid]
+    exact ⟨h1, h2, r, h3, rfl, h4, hex⟩
+
+/-- **(2) chosen by the documented preference rule**: the suite is the FIRST qualifying id of the effective
+    preference list `pref` — the client's offer, or the server's list under PreferServerCipherSuites, as configured or
+    after the `deprioritizeAES` the code applies (`prefLists12_cases` / `prefLists13_cases` say which) — where
+    qualifying means: in the other side's list `sup` and (≤ 1.2) implemented + `cipherSuiteOk`, (1.3) a TLS 1.3 suite -/
+theorem negotiate_suite_preference (c : Client) (s : Server) (o : Outcome) (h : negotiate c s = .done o) :
+    ∃ pref sup pre post, pref = pre ++ o.suite :: post ∧
+      (if o.vers = VersionTLS13 then
+         prefLists13 (offerOf c) s.prefer = some (pref, sup) ∧
+         ∀ x ∈ pre, (sup.contains x && isTLS13Suite x) = false
+       else
+         prefLists12 (offerOf c) s.suites s.prefer = some (pref, sup) ∧
+         ∀ x ∈ pre, ∀ rx, lookup implemented x = some rx →
+           (cipherSuiteOk (factsOf c s o.vers) rx && sup.contains x) = false) := by
+  obtain ⟨v, _, hvers, _, hrest⟩ := (negotiate_done_iff c s o).mp h
+  subst hvers
+  split at hrest
+  · rename_i h13
+    obtain ⟨_, hp, _, _⟩ := hrest
+    obtain ⟨pref, sup, pre, post, hl, he, hpre⟩ := pick13_first _ _ _ hp
+    exact ⟨pref, sup, pre, post, he, by simp only [h13, if_true]; exact ⟨hl, hpre⟩⟩
+  · rename_i h13
+    obtain ⟨r, hp, _, _, _, hid, _⟩ := hrest
+    obtain ⟨pref, sup, pre, post, hl, he, hpre⟩ := pick_suite_first _ _ _ _ _ hp
+    exact ⟨pref, sup, pre, post, by rw [hid]; exact he, by simp only [h13, if_false]; exact ⟨hl, hpre⟩⟩
+
+/-- **(3a) ALPN**: the outcome's protocol is exactly `mutualProtocol` of the two lists (none when the client sent no
+    extension): a protocol the client listed, and the first of the SERVER's list that the client lists -/
+theorem negotiate_alpn_sound (c : Client) (s : Server) (o : Outcome) (h : negotiate c s = .done o) :
+    o.alpn = (if c.alpn.isEmpty then none else mutualProtocol c.alpn s.alpn) ∧
+    ∀ p, o.alpn = some p → p ∈ c.alpn ∧ ∃ pre post, s.alpn = pre ++ p :: post ∧ ∀ x ∈ pre, x ∉ c.alpn := by
+  obtain ⟨v, _, _, hal, _⟩ := (negotiate_done_iff c s o).mp h
+  refine ⟨hal, fun p hp => ?_⟩
+  rw [hal] at hp
+  simp only [alpnOf] at hp
+  split at hp
+  · simp at hp
+  · exact alpn_rule _ _ _ hp
+
+/-- **(3b) sentinel**: the outcome's sentinel is exactly what the server's rule `serverCanary` puts into a TLS ≤ 1.2
+    ServerHello (or the forged ServerRandom value), none for TLS 1.3, and a completed negotiation never carries a
+    sentinel the client's check would reject -/
+theorem negotiate_canary (c : Client) (s : Server) (o : Outcome) (h : negotiate c s = .done o) :
+    o.canary = (if o.vers = VersionTLS13 then .none else sentinelOf s o.vers) ∧
+    clientAborts (maxSupported (cvOf c)) o.vers o.canary = false := by
+  obtain ⟨v, _, hvers, _, hrest⟩ := (negotiate_done_iff c s o).mp h
+  subst hvers
+  split at hrest
+  · rename_i h13
+    obtain ⟨_, _, _, hc⟩ := hrest
+    rw [hc]
+    exact ⟨by simp only [h13, if_true], client_no_abort_without_canary _ _⟩
+  · rename_i h13
+    obtain ⟨r, _, _, _, hab, _, hc⟩ := hrest
+    rw [hc]
+    exact ⟨by simp only [h13, if_false], hab⟩
+
+/-- **the server's own sentinel never makes the client of the negotiated connection abort**: the selected version is
+    the highest shared one, so the sentinel is only present when the CLIENT's maximum is the negotiated version -/
+theorem honest_sentinel_no_abort (cmin cmax smin smax v : Nat)
+    (h : mutualVersion (configVersions supportedVersions smin smax) (configVersions supportedVersions cmin cmax) = some v) :
+    clientAborts (maxSupported (configVersions supportedVersions cmin cmax)) v
+      (serverCanary (maxSupported (configVersions supportedVersions smin smax)) v) = false := by
+  obtain ⟨hvc, hvs, hmax⟩ := version_is_max_shared cmin cmax smin smax v h
+  cases hab : clientAborts _ v (serverCanary _ v) with
+  | false => rfl
+  | true =>
+    exfalso
+    obtain ⟨hlt, hne⟩ := clientAborts_lt hab
+    have hs := ((canary_iff _ _).mp hne).2
+    have hcm := maxSupported_mem hvc
+    have hsm := maxSupported_mem hvs
+    by_cases hle : maxSupported (configVersions supportedVersions cmin cmax) ≤ maxSupported (configVersions supportedVersions smin smax)
+    · have := hmax _ hcm (configVersions_convex _ _ _ v _ _ hvs hsm (configVersions_sub _ _ _ _ hcm) (Nat.le_of_lt hlt) hle)
+      omega
+    · have := hmax _ (configVersions_convex _ _ _ v _ _ hvc hcm (configVersions_sub _ _ _ _ hsm) (Nat.le_of_lt hs) (by omega)) hsm
+      omega
+
+/-- a suite that passed `cipherSuiteOk` (hence not DSS — table fact) can carry out its key exchange unless the key is
+    Ed25519 and the version is below TLS 1.2 -/
+theorem exchangeWorks_of_ok (r : SuiteRow) (f : Facts) (key : KeyType) (v : Nat)
+    (hl : lookup implemented r.id = some r) (hok : cipherSuiteOk f r = true)
+    (hed : ¬(key = .ed25519 ∧ v < VersionTLS12)) : exchangeWorks r key v = true := by
+  have hmem : r ∈ implemented := List.mem_of_find?_eq_some hl
+  have hdss := (table_flags_consistent r hmem hl).2.2
+  have : hasFlag r.flags flagDSS = false := by
+    unfold cipherSuiteOk at hok
+    simp only [Bool.and_eq_true, Bool.not_eq_true'] at hok
+    exact hok.1.2
+  rw [this] at hdss
+  unfold exchangeWorks
+  simp only [← hdss, Bool.false_eq_true, if_false]
+  split
+  · rename_i hc
+    simp only [Bool.and_eq_true, beq_iff_eq, decide_eq_true_eq] at hc
+    exact absurd hc hed
+  · rfl
+
+/-- with fresh server randomness the client's downgrade check never fails a negotiation -/
+theorem negotiate_abort_only_forged (c : Client) (s : Server) (v : Nat) (hr : s.rand = .none)
+    (hv : mutualVersion (svOf s) (cvOf c) = some v) :
+    clientAborts (maxSupported (cvOf c)) v (sentinelOf s v) = false := by
+  have := honest_sentinel_no_abort c.minV c.maxV s.minV s.maxV v hv
+  simpa only [sentinelOf, hr] using this
+
+/-- **liveness, TLS ≤ 1.2** (the model-level half of "configurations that share a version and an implemented suite
+    usable with the server's key complete the handshake"): highest shared version `v` ≤ 1.2, an id enabled on both sides
+    that is implemented and passes `cipherSuiteOk`, no SCSV misuse, an honest ServerRandom, not (Ed25519 key below
+    TLS 1.2), ≤ 20 ids to deprioritise — then the negotiation completes, at `v` -/
+theorem negotiate_completes_12 (c : Client) (s : Server) (v : Nat)
+    (hv : mutualVersion (svOf s) (cvOf c) = some v) (h13 : v ≠ VersionTLS13)
+    (hshare : ∃ x ∈ offerOf c, x ∈ s.suites.getD defaultCipherSuites ∧
+       ∃ rx, lookup implemented x = some rx ∧ cipherSuiteOk (factsOf c s v) rx = true)
+    (hed : ¬(s.key = .ed25519 ∧ v < VersionTLS12))
+    (hscsv : scsvBad c s v = false) (hr : s.rand = .none)
+    (hm : prefLists12 (offerOf c) s.suites s.prefer ≠ none) :
+    ∃ o, negotiate c s = .done o ∧ o.vers = v := by
+  cases hn : negotiate c s with
+  | done o =>
+    obtain ⟨v', hv', ho, _⟩ := (negotiate_done_iff c s o).mp hn
+    rw [hv] at hv'
+    simp only [Option.some.injEq] at hv'
+    exact ⟨o, rfl, by rw [ho, hv']⟩
+  | unmodelled =>
+    exfalso
+    obtain ⟨v', hv', hrest⟩ := (negotiate_unmodelled_iff c s).mp hn
+    rw [hv] at hv'
+    simp only [Option.some.injEq] at hv'
+    subst hv'
+    simp only [h13, if_false] at hrest
+    exact hm hrest
+  | fail =>
+    exfalso
+    rcases (negotiate_fail_iff c s).mp hn with hno | ⟨v', hv', hrest⟩
+    · obtain ⟨hvc, hvs, _⟩ := version_is_max_shared _ _ _ _ v hv
+      exact hno v hvc hvs
+    · rw [hv] at hv'
+      simp only [Option.some.injEq] at hv'
+      subst hv'
+      simp only [h13, if_false] at hrest
+      rcases hrest with ⟨_, hnone⟩ | ⟨r, hp, hbad⟩
+      · obtain ⟨x, hx, hs, rx, hl, hok⟩ := hshare
+        rw [hnone x hx hs rx hl] at hok
+        exact absurd hok (by simp)
+      · obtain ⟨_, _, hl, hok⟩ := pick_suite_sound _ _ _ _ _ hp
+        rcases hbad with hb | hb | hb
+        · rw [hscsv] at hb; exact absurd hb (by simp)
+        · rw [exchangeWorks_of_ok r _ s.key v hl hok hed] at hb; exact absurd hb (by simp)
+        · rw [negotiate_abort_only_forged c s v hr hv] at hb; exact absurd hb (by simp)
+
+/-- **liveness, TLS 1.3**: a shared TLS 1.3 suite and a shared group suffice -/
+theorem negotiate_completes_13 (c : Client) (s : Server)
+    (hv : mutualVersion (svOf s) (cvOf c) = some VersionTLS13)
+    (hshare : ∃ x ∈ offerOf c, x ∈ defaultCipherSuitesTLS13 ∧ isTLS13Suite x = true)
+    (hcurve : (curvesOf s.curves).any (fun g => (curvesOf c.curves).contains g) = true)
+    (hscsv : scsvBad c s VersionTLS13 = false)
+    (hm : prefLists13 (offerOf c) s.prefer ≠ none) :
+    ∃ o, negotiate c s = .done o ∧ o.vers = VersionTLS13 := by
+  cases hn : negotiate c s with
+  | done o =>
+    obtain ⟨v', hv', ho, _⟩ := (negotiate_done_iff c s o).mp hn
+    rw [hv] at hv'
+    simp only [Option.some.injEq] at hv'
+    exact ⟨o, rfl, by rw [ho, hv']⟩
+  | unmodelled =>
+    exfalso
+    obtain ⟨v', hv', hrest⟩ := (negotiate_unmodelled_iff c s).mp hn
+    rw [hv] at hv'
+    simp only [Option.some.injEq] at hv'
+    subst hv'
+    simp only [if_true] at hrest
+    exact hm hrest.2
+  | fail =>
+    exfalso
+    rcases (negotiate_fail_iff c s).mp hn with hno | ⟨v', hv', hrest⟩
+    · obtain ⟨hvc, hvs, _⟩ := version_is_max_shared _ _ _ _ _ hv
+      exact hno _ hvc hvs
+    · rw [hv] at hv'
+      simp only [Option.some.injEq] at hv'
+      subst hv'
+      simp only [if_true] at hrest
+      rcases hrest with hb | ⟨_, hnone⟩ | ⟨_, hb⟩
+      · rw [hscsv] at hb; exact absurd hb (by simp)
+      · obtain ⟨x, hx, hs, h3⟩ := hshare
+        rw [hnone x hx hs] at h3
+        exact absurd h3 (by simp)
+      · rw [hcurve] at hb; exact absurd hb (by simp)
 
 /-! ### resumption across configuration changes
 
@@ -374,6 +1160,19 @@ theorem connect_resumed_sound (k : Conn) (cache : Option Sess) (h : (connect k c
        rw [hid]
        exact ⟨rfl, hoff, hsrv⟩)
 
+/-- **a connection that does not resume IS the full negotiation** (when that is inside the model), whatever the cache
+    holds: every `negotiate_*` theorem above transfers to non-resumed connections of a sequence -/
+theorem connect_full_is_negotiate (k : Conn) (cache : Option Sess) (hr : (connect k cache).resumed = false)
+    (hm : negotiate k.c k.s ≠ .unmodelled) : (connect k cache).res = negotiate k.c k.s := by
+  unfold connect at hr ⊢
+  unfold negotiate at hm ⊢
+  simp only at hr hm ⊢
+  repeat' split
+  all_goals first
+    | (simp [failedWith_res, completed_res]; done)
+    | (simp_all [failedWith_res, completed_res]; done)
+    | skip
+
 /-! ### non-vacuity -/
 example : negotiate { minV := 0, maxV := 771, suites := some [50, 47], force := true, curves := none, alpn := [] }
     { minV := 0, maxV := 0, suites := none, prefer := false, curves := none, alpn := [], key := .rsa, rand := .none }
@@ -411,5 +1210,50 @@ example : checkResume13 4866 true (some [0]) (some { vers := 772, suite := 4866,
 example : (checkResume12 771 [47] (some [47]) (facts 771 .rsa true) (some [1, 0]) (some { vers := 771, suite := 47, key := 0 })).isSome = true := by decide
 example : (loadSession [772, 771] [47, 4865] true (some { vers := 772, suite := 4867, key := 0 })).isSome = true := by decide
 example : mutualVersion (configVersions supportedVersions 770 0) (configVersions supportedVersions 0 771) = some 771 := by decide
+
+/-! non-vacuity of the negotiation / deprioritisation theorems -/
+def exC (maxV : Nat) (suites : List Nat) : Client :=
+  { minV := 0, maxV := maxV, suites := some suites, force := false, curves := none, alpn := [7, 9] }
+def exS (maxV : Nat) (prefer : Bool) (rand : Canary) : Server :=
+  { minV := 0, maxV := maxV, suites := none, prefer := prefer, curves := none, alpn := [9, 7], key := .rsa, rand := rand }
+-- TLS 1.3, client preference (ALPN follows the SERVER's order)
+example : negotiate (exC 0 [47, 4865]) (exS 0 false .none) =
+    .done { vers := 772, suite := 4865, alpn := some 9, canary := .none } := by decide
+-- TLS 1.2 with PreferServerCipherSuites: the server's (deprioritised default) list decides; the server could have
+-- gone higher, so the sentinel is present, and the TLS 1.2 client does not reject it
+example : negotiate (exC 771 [47, 49199]) (exS 0 true .none) =
+    .done { vers := 771, suite := 49199, alpn := some 9, canary := .c12 } := by decide
+-- the failure causes of `negotiate_fail_iff`: no shared version / no shared usable suite (ECDSA suite, RSA key) /
+-- FALLBACK_SCSV although the server supports more / a forged sentinel makes a TLS 1.3 client abort
+example : negotiate { exC 770 [47] with minV := 769 } { exS 0 false .none with minV := 771 } = .fail := by decide
+example : negotiate (exC 771 [49195]) (exS 0 false .none) = .fail := by decide
+example : negotiate { exC 771 [47, 22016] with force := true } (exS 0 false .none) = .fail := by decide
+example : negotiate (exC 0 [47]) (exS 771 false .c12) = .fail ∧
+    negotiate (exC 0 [47]) (exS 771 false .none) = .done { vers := 771, suite := 47, alpn := some 9, canary := .none } := by decide
+-- where the model gives up (only when this machine has no AES-GCM hardware support: then the offer is deprioritised)
+example : hasAESGCMHardwareSupport = false →
+    negotiate { exC 771 (List.replicate 21 47) with force := true } (exS 771 false .none) = .unmodelled := by decide
+-- hypotheses of the liveness theorems
+example : ∃ o, negotiate (exC 771 [49195, 47]) (exS 0 false .none) = .done o ∧ o.vers = 771 :=
+  negotiate_completes_12 _ _ 771 (by decide) (by decide) ⟨47, by decide, by decide,
+    { id := 47, flags := 0, ka := "rsa", kind := "cbc", keyLen := 16, macLen := 20, ivLen := 16 }, by decide, by decide⟩
+    (by decide) (by decide) rfl (by decide)
+example : ∃ o, negotiate (exC 0 [47, 4866]) (exS 0 true .none) = .done o ∧ o.vers = 772 :=
+  negotiate_completes_13 _ _ (by decide) ⟨4866, by decide, by decide, by decide⟩ (by decide) (by decide) (by decide)
+-- the preference lists and the two picks
+example : prefLists12 [47, 49199] (some [49199, 47]) true = some ([49199, 47], [47, 49199]) := by decide
+example : (prefLists13 [4865, 4867] true).isSome = true := by decide
+example : (match pickCipherSuite [53, 47] (some [47, 53]) true (facts 771 .rsa true) with | .suite r => r.id == 47 | _ => false) = true := by decide
+example : pickTLS13 [4866, 4865] true = some (some 4865) ∨ pickTLS13 [4866, 4865] true = some (some 4866) := by decide
+example : pickCipherSuite [49195] none false (facts 771 .rsa true) = .noSuite := by decide
+-- deprioritizeAES: ChaCha20 moves in front of an ADJACENT AES-GCM id …
+example : deprio [49199, 52392, 47] = some [52392, 49199, 47] := by decide
+-- … but not across an id of neither class: the result is not "all non-AES-GCM AEAD ids before all AES-GCM ids"
+-- (`less 52392 49199` holds, the pair keeps its order) — the documented "adjacent" behaviour, no inversion is ADJACENT
+example : deprio [49199, 47, 52392] = some [49199, 47, 52392] ∧ less 52392 49199 = true := by decide
+example : [49199, 47].Sublist [49199, 52392, 47] ∧ less 47 49199 = false := by decide
+-- a connection that presents a session but does not resume it (hypotheses of `connect_full_is_negotiate`)
+example : (connect (exConn [49199, 47] [47] (some [0])) (some { vers := 771, suite := 49199, key := 0 })).resumed = false ∧
+    negotiate (exConn [49199, 47] [47] (some [0])).c (exConn [49199, 47] [47] (some [0])).s ≠ .unmodelled := by decide
 
 end ZV.C24
